@@ -167,9 +167,10 @@ def default_cells(tier):
     # events in the first / last samples
     for i, seed in enumerate((25004, 25006, 25012, 25014, 25020, 25022) if tier == "quick" else tuple(25004 + 2 * j for j in range(24))):
         yield {"detector": "SeededBinarySegmentation", "params": {"max_interval_length": 1000}, "seed": seed, "n": 300 + 40 * (i % 5), "p": 1 + i % 2,
-               "frame": False}
+               "frame": False, "kind": ("ends_strong", "burst_short", None)[i % 3]}
         if i < (2 if tier == "quick" else 8):
-            yield {"detector": "CircularBinarySegmentation", "params": {}, "seed": seed, "n": 290 + 10 * i, "p": 1, "frame": False}
+            yield {"detector": "CircularBinarySegmentation", "params": {}, "seed": seed, "n": 290 + 10 * i, "p": 1, "frame": False,
+                   "kind": ("burst_short", "ends_strong")[i % 2]}
     for det, vs in variants.items():
         for seed in range(8 if tier == "quick" else 32):
             for v in vs:
@@ -181,7 +182,7 @@ def default_cells(tier):
 def check_default(case):
     import pandas as pd
 
-    X, kind = D.realistic_series(case["seed"], case["n"], case["p"])
+    X, kind = D.realistic_series(case["seed"], case["n"], case["p"], case.get("kind"))
     if case["detector"] in ("CAPA", "MVCAPA"):
         X = X - np.median(X, axis=0)
     full = K.build(K.detector_spec(case["detector"], case["params"])).get_params(deep=False)
